@@ -9,6 +9,12 @@ def main():
     logging.disable(logging.CRITICAL)
     from vlib.run import Run
     run = Run(pid, child=True)
+    try:
+        from vlib import reach
+        from vlib.run import REPO
+        reach.start(pid, REPO)
+    except Exception:
+        pass
     mod = importlib.import_module(module)
     getattr(mod, func)(run, **json.loads(args))
     with open(out + ".tmp", "w") as fh:
